@@ -63,20 +63,22 @@ type AtomRow struct {
 	V string `json:"v"`
 	U bool   `json:"u"` // Go regexp.MatchString(pattern, v): unanchored, the language's meaning
 	A bool   `json:"a"` // anchored ^(?:pattern)$ unless pattern is a pure literal (then Contains)
+	I bool   `json:"i"` // what the index's own translation of the pattern matches (measured: single-atom search on probe series)
 }
 type AtomTab struct {
 	Pat     string    `json:"pat"`
 	Literal bool      `json:"literal"` // pattern is a pure literal
+	Anchors bool      `json:"anchors"` // pattern contains an explicit position assertion (^ $ \A \z \b \B)
 	Rows    []AtomRow `json:"rows"`
 }
 
 type Fail struct {
-	Kind string `json:"kind"`
-	Op   int    `json:"op"`
-	What string `json:"what"`
-	// classification helpers for the driver (signature of C10-regex-anchoring)
-	RegexDiffer bool `json:"regex_differ"` // some regex atom of the predicate is not a pure literal and anchored/unanchored differ on a stored value of its key
-	RepairedOK  bool `json:"repaired_ok"`  // the answer equals brute force under ANCHORED atom meaning (i.e. explained by anchoring alone)
+	Kind string   `json:"kind"`
+	Op   int      `json:"op"`
+	What string   `json:"what"`
+	Path int      `json:"path,omitempty"` // search-not-bruteforce: 1 show-series/drop path, 2 select path
+	Got  []uint64 `json:"got,omitempty"`
+	Want []uint64 `json:"want,omitempty"`
 }
 
 type Case struct {
@@ -271,6 +273,27 @@ func isPureLiteral(p string) bool {
 		return true
 	}
 	return re.Op == syntax.OpLiteral && re.Flags&syntax.FoldCase == 0
+}
+
+func hasAnchors(p string) bool {
+	re, err := syntax.Parse(p, syntax.Perl)
+	if err != nil {
+		return false
+	}
+	var walk func(r *syntax.Regexp) bool
+	walk = func(r *syntax.Regexp) bool {
+		switch r.Op {
+		case syntax.OpBeginLine, syntax.OpEndLine, syntax.OpBeginText, syntax.OpEndText, syntax.OpWordBoundary, syntax.OpNoWordBoundary:
+			return true
+		}
+		for _, x := range r.Sub {
+			if walk(x) {
+				return true
+			}
+		}
+		return false
+	}
+	return walk(re)
 }
 
 func matchU(p, v string) bool { return regexp.MustCompile(p).MatchString(v) }
@@ -478,24 +501,8 @@ func (rn *runner) doQuery(mst string, x *Expr) {
 		if eqU(got, want) {
 			continue
 		}
-		f := Fail{Kind: "search-not-bruteforce", Op: opi,
+		f := Fail{Kind: "search-not-bruteforce", Op: opi, Path: pi + 1, Got: got, Want: want,
 			What: fmt.Sprintf("path %d: predicate selects ids %v, brute force over the written series (unanchored regexp) gives %v", pi+1, got, want)}
-		f.RepairedOK = eqU(got, rn.brute(mst, x, matchA))
-		atomsOf(x, func(a *Expr) {
-			if (a.O == "re" || a.O == "nre") && !isPureLiteral(a.V) {
-				seen := map[string]bool{"": true}
-				for _, s := range rn.g.series {
-					if s.mst == mst {
-						seen[s.tags[a.K]] = true
-					}
-				}
-				for v := range seen {
-					if matchU(a.V, v) != matchA(a.V, v) {
-						f.RegexDiffer = true
-					}
-				}
-			}
-		})
 		rn.c.Oracle = append(rn.c.Oracle, f)
 	}
 }
@@ -568,8 +575,13 @@ func (rn *runner) doReopen() {
 	rn.c.Ops = append(rn.c.Ops, Op{Op: "reopen", Bump: uuidBase(rn.e.clock, ns) - old})
 }
 
+const probeMst = "zzprobe_0000"
+
+// finishAtoms measures, for every regex pattern used in the case and every tag value stored in the case (and the absent
+// tag), what the index's own translation of the pattern matches: one probe series per value under tag key "k" in a
+// measurement of its own, one probe series without tags, and the single-atom search  k =~ /p/  on both search paths.
 func (rn *runner) finishAtoms() {
-	vs := map[string]bool{"": true}
+	vs := map[string]bool{}
 	for _, s := range rn.g.series {
 		for _, v := range s.tags {
 			vs[v] = true
@@ -585,10 +597,30 @@ func (rn *runner) finishAtoms() {
 		pl = append(pl, p)
 	}
 	sort.Strings(pl)
+	if len(pl) == 0 {
+		return
+	}
+	idOf := map[string]uint64{}
+	idOf[""] = rn.e.insert(probeMst, nil)
+	for _, v := range vl {
+		idOf[v] = rn.e.insert(probeMst, [][2]string{{"k", v}})
+	}
+	rn.e.b.Flush()
+	vl = append([]string{""}, vl...)
 	for _, p := range pl {
-		t := AtomTab{Pat: p, Literal: isPureLiteral(p)}
+		x := &Expr{T: "atom", K: "k", O: "re", V: p}
+		g1 := rn.e.queryIDs(probeMst, x)
+		g2 := rn.e.queryOpts(probeMst, x)
+		if !eqU(g1, g2) {
+			rn.fail("atom-paths-differ", len(rn.c.Ops), fmt.Sprintf("k =~ /%s/ on the probe series: show-series path %v, select path %v", p, g1, g2))
+		}
+		in := map[uint64]bool{}
+		for _, id := range g2 {
+			in[id] = true
+		}
+		t := AtomTab{Pat: p, Literal: isPureLiteral(p), Anchors: hasAnchors(p)}
 		for _, v := range vl {
-			t.Rows = append(t.Rows, AtomRow{V: v, U: matchU(p, v), A: matchA(p, v)})
+			t.Rows = append(t.Rows, AtomRow{V: v, U: matchU(p, v), A: matchA(p, v), I: in[idOf[v]]})
 		}
 		rn.c.Atoms = append(rn.c.Atoms, t)
 	}
@@ -598,7 +630,7 @@ func newRunner(r *gen.Rand, dir string, i int, kind string) *runner {
 	seq := uint64(1000)
 	e := &env{dir: dir, clock: 1, seq: &seq}
 	e.open()
-	return &runner{e: e, c: &Case{I: i, Kind: kind, Oracle: []Fail{}}, g: &genState{r: r, byKey: map[string]*ser{}}, pats: map[string]bool{}}
+	return &runner{e: e, c: &Case{I: i, Kind: kind, Oracle: []Fail{}, Atoms: []AtomTab{}}, g: &genState{r: r, byKey: map[string]*ser{}}, pats: map[string]bool{}}
 }
 
 func genCase(r *gen.Rand, dir string, i int) *Case {
@@ -636,7 +668,7 @@ func genCase(r *gen.Rand, dir string, i int) *Case {
 			dirty = false
 			rn.c.Ops = append(rn.c.Ops, Op{Op: "flush"})
 		case c < 12:
-			if dirty { // see NOTES: the key->id cache is the only lookup path for not-yet-flushed items
+			if dirty && !r.Chance(1, 4) { // mostly flush first; sometimes clear the cache while items are still pending
 				rn.e.b.Flush()
 				dirty = false
 				rn.c.Ops = append(rn.c.Ops, Op{Op: "flush"})
@@ -707,12 +739,6 @@ func main() {
 	}
 	base := filepath.Join(work, "c10idx")
 	must(os.MkdirAll(base, 0o755))
-	if len(os.Args) > 1 && os.Args[1] == "probe" {
-		os.Args = os.Args[:1]
-		flag.Parse()
-		probe(base)
-		return
-	}
 	flag.Parse() // the lifted VictoriaMetrics memory package insists on it
 	args := flag.Args()
 	n := 150
@@ -746,60 +772,5 @@ func main() {
 		gen.Emit(c)
 		os.RemoveAll(dir)
 		idx++
-	}
-}
-
-func probe(base string) {
-	dir := filepath.Join(base, "probe")
-	os.RemoveAll(dir)
-	rn := newRunner(gen.New(1), dir, 0, "probe")
-	byID := map[uint64]string{}
-	for _, v := range vals {
-		if v == "" {
-			continue
-		}
-		rn.doInsert("m_0000", [][2]string{{"k", v}})
-	}
-	rn.doInsert("m_0000", [][2]string{{"other", "1"}})
-	for _, s := range rn.g.series {
-		byID[s.id] = s.tags["k"]
-	}
-	rn.e.b.Flush()
-	for _, p := range pats {
-		for _, o := range []string{"re", "nre"} {
-			x := &Expr{T: "atom", K: "k", O: o, V: p}
-			got := rn.e.queryIDs("m_0000", x)
-			got2 := rn.e.queryOpts("m_0000", x)
-			wantU := rn.brute("m_0000", x, matchU)
-			wantA := rn.brute("m_0000", x, matchA)
-			name := func(ids []uint64) []string {
-				var r []string
-				for _, id := range ids {
-					r = append(r, byID[id])
-				}
-				sort.Strings(r)
-				return r
-			}
-			tag := ""
-			if eqU(got, wantU) {
-				tag += " =U"
-			}
-			if eqU(got, wantA) {
-				tag += " =A"
-			}
-			if !eqU(got, got2) {
-				tag += " PATHS-DIFFER"
-			}
-			fmt.Printf("%-4s %-14q lit=%v%s\n   impl=%q\n", o, p, isPureLiteral(p), tag, name(got))
-			if !eqU(got, wantU) {
-				fmt.Printf("   U   =%q\n", name(wantU))
-			}
-			if !eqU(got, wantA) && !eqU(wantA, wantU) {
-				fmt.Printf("   A   =%q\n", name(wantA))
-			}
-			if !eqU(got, got2) {
-				fmt.Printf("   impl2=%q\n", name(got2))
-			}
-		}
 	}
 }
